@@ -136,6 +136,22 @@ Definition transformed_ok (m : affine) (incl skip : list str) (gs gs' : glyphset
         else glyph_eqb g' (snd ng)
     end) gs.
 
+(* TransformationsFilter with every glyph included (no slant): own contours mapped by m (no reversal), every
+   component (b, T) rewritten to m.T.m^-1 because its base is transformed too, anchors mapped, advance scaled *)
+Definition is_blank (g : glyph) : bool :=
+  match gcontours g, gcomps g, ganchors g with [], [], [] => true | _, _, _ => false end.
+Definition transform_glyph (m : affine) (g : glyph) : glyph :=
+  if is_blank g then g else      (* a glyph without contours, components and anchors is left alone (advance included) *)
+  mkG (map (aff_contour m) (gcontours g))
+      (map (fun bt => (fst bt, compose m (compose (snd bt) (inverse m)))) (gcomps g))
+      (xx m * gwidth g)
+      (map (fun a => (fst a, (xx m * fst (snd a) + yx m * snd (snd a) + dx m,
+                              xy m * fst (snd a) + yy m * snd (snd a) + dy m))) (ganchors g)).
+Definition transform_set (m : affine) (gs : glyphset) : glyphset :=
+  map (fun ng => (fst ng, transform_glyph m (snd ng))) gs.
+Definition model_transform_all_eqb (m : affine) (gs gs' : glyphset) : bool :=
+  list_eqb (fun x y => str_eqb (fst x) (fst y) && glyph_eqb (snd x) (snd y)) (transform_set m gs) gs'.
+
 (* component nesting depth of a glyph (0 = no components) *)
 Fixpoint comp_depth (fuel : nat) (gs : glyphset) (g : glyph) : option nat :=
   match fuel with
